@@ -19,7 +19,7 @@ META = dict(
     harness=["c05"],
 )
 
-HEADER = ("From Coq Require Import ZArith QArith List Bool.\nFrom CV Require Import Base.Dy Dash.DashPhase Split.Cert Corr.C05.\n"
+HEADER = ("From Coq Require Import ZArith QArith List Bool.\nFrom CV Require Import Base.Dy Dash.DashPhase Split.Cert Corr.C09 Corr.C05.\n"
           "Import ListNotations.\nOpen Scope Q_scope.\n")
 
 K1_FLAGS = {1: "tie:dashCanonical", 2: "tie:dashStart", 4: "tie:checkDash(DrawPath decision)",
@@ -36,6 +36,9 @@ K2_TIE = 1 | 64 | 128
 K3_FLAGS = {1: "prop:curved-piece-not-a-subcurve", 2: "prop:curved-pieces-out-of-order", 4: "prop:curved-piece-count-differs",
             8: "prop:curved-cut-not-at-prescribed-arc-length(enclosure+-1%)", 32: "prop:panic"}
 K3_PROP = 1 | 2 | 4 | 8 | 32
+K4_FLAGS = {1: "tie:generated-arc-inconsistent", 2: "prop:arc-dash-not-on-the-same-ellipse/direction", 4: "prop:arc-dashes-out-of-order",
+            8: "prop:arc-dash-length-differs-from-pattern(+-2%)", 16: "prop:arc-dash-large-flag-contradicts-its-end-points", 32: "prop:arc-dash-count-differs", 64: "prop:panic"}
+K4_PROP = 2 | 4 | 8 | 16 | 32 | 64
 KNOWN_PANIC = "theta not in elliptic arc range for splitting"   # recorded under C10/C13
 
 
@@ -55,20 +58,26 @@ def run(ctx):
     rows = vlib.coq_eval_shards("c05-%d" % ctx.seed, HEADER, [c["coq"] for c in cases], shard=ctx.n(80, 400))
     flagcount, classes = {}, {}
     prop_fail, tie_fail = [], []
-    nk1 = nk2 = nsub = nk3 = nk3pieces = 0
+    nk1 = nk2 = nsub = nk3 = nk3pieces = nk4 = nk4pieces = 0
     nontrivial = set()
     distinct = set()
     for c, row in zip(cases, rows):
         k1 = c["desc"]["kind"] == "K1"
         k3 = c["desc"]["kind"] == "K3"
-        names, pm, tm = (K1_FLAGS, K1_PROP, K1_TIE) if k1 else ((K3_FLAGS, K3_PROP, 0) if k3 else (K2_FLAGS, K2_PROP, K2_TIE))
+        k4 = c["desc"]["kind"] == "K4"
+        names, pm, tm = (K1_FLAGS, K1_PROP, K1_TIE) if k1 else ((K3_FLAGS, K3_PROP, 0) if k3 else ((K4_FLAGS, K4_PROP, 1) if k4 else (K2_FLAGS, K2_PROP, K2_TIE)))
         key = json.dumps([c["desc"].get("path"), c["desc"]["offset"], c["desc"]["dashes"]])
         distinct.add(key)
         fl = 0
         for k in range(len(row) // 3):
             f, a, b = row[3 * k], row[3 * k + 1], row[3 * k + 2]
             fl |= f
-            if k3:
+            if k4:
+                nk4 += 1
+                nk4pieces += a
+                if a >= 2:
+                    nontrivial.add(key)
+            elif k3:
                 nk3 += 1
                 nk3pieces += a
                 if a >= 2:
@@ -85,7 +94,7 @@ def run(ctx):
                     classes["k2-joined"] = classes.get("k2-joined", 0) + 1
         if k1:
             nk1 += 1
-        elif not k3:
+        elif not k3 and not k4:
             nk2 += 1
         for b, name in names.items():
             if fl & b:
@@ -108,12 +117,19 @@ def run(ctx):
     known = {f["key"]: f for f in vlib.known_findings("C05") if f.get("status") == "open"}
     kkey = "arclength-inversion-accuracy-beyond-one-percent"
     rest, nknown, worst = [], 0, (None, 0)
+    nknown_arc, worst_arc = 0, (None, 0)
     for t in prop_fail:
         c, fl, names, pm = t
         row = rows[cases.index(c)]
         # accuracy only: every piece is a certified sub-curve of the input, pieces in order, count as prescribed (flags 1, 2, 4 clear),
         # and the worst cut is at most 40/1000 of the path length outside the enclosure of its prescribed position
-        if kkey in known and c["desc"]["kind"] == "K3" and fl & pm == 8 and 0 <= row[2] <= 40:
+        if ("arc-dash-arclength-accuracy" in known and c["desc"]["kind"] == "K4" and (fl & pm) in (8, 32) and 0 <= row[2] <= 60
+                and ((fl & pm) == 8 or abs(row[1] - c["desc"].get("spec_dashes", -10**9)) <= max(1, c["desc"].get("spec_dashes", 0) // 20))):
+            # accuracy only on an arc: right number of dashes, each an arc of the same ellipse, in order, flags consistent
+            nknown_arc += 1
+            if row[2] >= worst_arc[1]:
+                worst_arc = (c, row[2])
+        elif kkey in known and c["desc"]["kind"] == "K3" and fl & pm == 8 and 0 <= row[2] <= 40:
             nknown += 1
             if row[2] >= worst[1]:
                 worst = (c, row[2])
@@ -123,6 +139,10 @@ def run(ctx):
         c = worst[0]
         ctx.known_finding("%s (%d cases this run; worst: a cut %d/1000 of the path length from its prescribed arc length on %s offset=%s dashes=%s)" % (
             known[kkey]["what"], nknown, worst[1], c["desc"].get("path"), c["desc"]["offset"], c["desc"]["dashes"]))
+    if nknown_arc:
+        c = worst_arc[0]
+        ctx.known_finding("%s (%d cases this run; worst: a dash %d/1000 of the path length off its prescribed length on %s offset=%s dashes=%s)" % (
+            known["arc-dash-arclength-accuracy"]["what"], nknown_arc, worst_arc[1], c["desc"].get("path"), c["desc"]["offset"], c["desc"]["dashes"]))
     prop_fail = rest
     # one violation per distinct set of property flags, smallest input first
     prop_fail.sort(key=size)
@@ -151,7 +171,7 @@ def run(ctx):
                                             "Path.SplitAt / Path.Length / Path.Join are not modelled: their effect is judged on Dash's output (K2, straight-line paths only)"]),
         evaluations=len(cases), distinct_nontrivial=len(nontrivial), distinct=len(distinct),
         rule="one evaluation = one (path, offset, dash array) run through the Go code (dashCanonical, dashStart, Context.DrawPath's decision, Path.Dash) and through the Coq model and spec; distinct by (path, offset, dash array); non-trivial: the model makes at least one cut (K1 class 3) or the specification prescribes at least two pieces on some subpath (K2)",
-        k1_cases=nk1, k2_cases=nk2, k2_subpaths=nsub, k3_curved_cases=nk3, k3_curved_pieces_certified=nk3pieces, known_finding_cases=nknown,
+        k1_cases=nk1, k2_cases=nk2, k2_subpaths=nsub, k3_curved_cases=nk3, k3_curved_pieces_certified=nk3pieces, k4_arc_cases=nk4, k4_arc_dashes_judged=nk4pieces, known_finding_cases=nknown,
         traces_validated_against_impl=len(cases), disagreements_checked=len(prop_fail) + len(tie_fail),
         k1_classes={"identity": classes.get(0, 0), "nothing": classes.get(1, 0), "first-element-covers": classes.get(2, 0), "cuts": classes.get(3, 0), "fuel": classes.get(9, 0)},
         k2_closed_subpaths_joined=classes.get("k2-joined", 0),
@@ -161,5 +181,5 @@ def run(ctx):
     )
     return ctx.finish("proof", cov, [
         "dash arrays, offsets and coordinates on the 1/4 mm grid (coarser than Epsilon) so that every Epsilon comparison in the Go code is decided as in the exact model",
-        "curved segments: K3 covers one open quadratic / convex cubic Bezier per case (certified sub-curves; every cut's arc-length position vs the pattern within enclosure +-1 % of the path length: checked, not proved); arcs, cusps/loops/inflections (C09 known finding) and mixed curved paths are not covered",
+        "curved segments: K3 covers one open quadratic / convex cubic Bezier per case (certified sub-curves; every cut's arc-length position vs the pattern within enclosure +-1 % of the path length: checked, not proved); K4 covers one elliptical arc per case (dashes judged against the ellipse by orientation predicates, lengths through Go's own Length of each dash); cusps/loops/inflections (C09 known finding) and mixed curved paths are not covered",
         "K2 slack 2^-30 mm on point positions (float rounding of Interpolate/Length)"])
